@@ -97,6 +97,17 @@ def gen_program(rng, extended):
     return mk(1, True)
 
 
+def failure_path(spec):
+    """ids of the node whose script ends in a terminal failure and of its ancestors (empty when every node eventually returns)"""
+    if spec["script"][-1] != "return":
+        return {spec["id"]}
+    for c in spec["children"]:
+        sub = failure_path(c)
+        if sub:
+            return sub | {spec["id"]}
+    return set()
+
+
 def shape(spec):
     return f"{spec['call'][0]}{len(spec['script'])}(" + ",".join(shape(c) for c in spec["children"]) + ")"
 
@@ -228,9 +239,10 @@ def run_case(case):
             if dc != sync_counts:
                 diff = {k for k in set(dc) | set(sync_counts) if dc.get(k, 0) != sync_counts.get(k, 0)}
                 if extended:
-                    # the distributed run is observed until the root is final: a sibling of a terminally failed node that was routed but had not
-                    # started by then is unfinished work, not a different execution count
-                    unfinished = {k for k in diff if dc.get(k, 0) == 0}
+                    # the distributed run is observed until the root is final: work outside the failure path (the terminally failing node and its
+                    # ancestors) that was routed but had not started, or not finished retrying, by then is unfinished work, not a different count
+                    fpath = failure_path(program)
+                    unfinished = {k for k in diff if k not in fpath and dc.get(k, 0) < sync_counts.get(k, 0)}
                     hooks["unfinished_siblings_ignored"] += len(unfinished)
                     diff -= unfinished
                     if not diff:
